@@ -24,7 +24,7 @@ UNIT = {
        # S-POL: an access never changes WHAT is tracked nor the recorded costs
        "forall|j: K| has_key(%s, j) == has_key(%s, j) && cost_of(%s, j) == cost_of(%s, j)" % (NEW, OLD, NEW, OLD),
      ],
-     "splices": [{"after": "self.list.lock().move_to_front(key);", "insert": [
+     "splices": [{"at_end": True, "insert": [
        "proof {",
        "  let o = old(self).list.view(); let k = *key;",
        "  lemma_without_keys(o, k); lemma_without_cost(o, k); lemma_cons((k, cost_of(o, k)), without(o, k));",
@@ -40,7 +40,7 @@ UNIT = {
        "has_key(%s, *key) && cost_of(%s, *key) == cost" % (NEW, NEW),
        frame_others(OLD, NEW, "*key"),
      ],
-     "splices": [{"after": "self.list.lock().push_front(key.clone(), cost);", "insert": [
+     "splices": [{"before_tail": True, "insert": [
        "proof {",
        "  let o = old(self).list.view(); let k = *key;",
        "  lemma_without_keys(o, k); lemma_without_cost(o, k); lemma_cons((k, cost), without(o, k));",
@@ -54,7 +54,7 @@ UNIT = {
        "!has_key(%s, *key)" % NEW,
        frame_others(OLD, NEW, "*key"),
      ],
-     "splices": [{"after": "self.list.lock().remove(key);", "insert": [
+     "splices": [{"at_end": True, "insert": [
        "proof { let o = old(self).list.view(); lemma_without_keys(o, *key); lemma_without_cost(o, *key); }"]}],
      "obligation": {"id": "policy.v.lru.on_remove", "props": ["C14"], "bound": "unbounded"}},
     {"kind": "fn", "name": "evict", "impl": IMPL,
